@@ -472,6 +472,12 @@ def obligations(tier):
   obs.append(step_momentum('spring', 'f-(h-hhh,s)', Th))
   obs.append(step_momentum('positional', 'f-h-hh', Th))
   obs += [collision_pair('spring', 1, Q), collision_pair('spring', 2, Q), collision_pair('positional', 1, Q), collision_pair('positional', 2, Th), spring_rest('h'), spring_rest('s'), generalized_rest(), bounded(tier)]
+  # "at rest in any joint configuration INSIDE ITS LIMITS": the rest clauses above are stated without limits; limits that are not reached change nothing in the joint kernels
+  # (C06's relational obligations, carried here as premises so that a limit term acting inside the range is reported against C04 too)
+  from verif.contracts import C06
+  for ob in (C06.spring_limits_inert('h', Q), C06.spring_limits_inert('s', Q), C06.positional_limits_inert('h', Q), C06.positional_limits_inert('s', Q)):
+    ob.id = ob.id.replace('C06/', 'C04/premise/')
+    obs.append(ob)
 
   def _sv():
     from brax.spring import pipeline
